@@ -19,7 +19,9 @@ EXPLANATION = (
     "(lower<-min, upper<-max), per Cp point / H / S the conflict test "
     "`not overwrite and present and differs -> ReadOnlyDataError` before "
     "the datum is taken, presence by `is not None`, commit of all fields "
-    "then one rebuild. R13.6: GroupLibrary.Update copies on first sight, "
+    "then one rebuild, which is unconditional (no path of "
+    "_setup_correlation with heat-capacity data keeps an older delegate). "
+    "R13.6: GroupLibrary.Update copies on first sight, "
     "otherwise delegates with the caller's overwrite flag, over complete "
     "loops. R13.7: duplicate names in one file are rejected on the parsed "
     "key; includes are merged in a complete loop through Update without "
